@@ -259,7 +259,7 @@ impl Prop for C13 {
             }
             node::CURRENT_NODE.with(|c| c.set(0));
             // n+2: black-holed host (SYNs vanish)
-            net.host_down(node::node_ip(n + 2), true);
+            net.host_down_opt(node::node_ip(n + 2), true, false);
             {
                 let world = world.clone();
                 nodesim::spawn_fault_driver(&handle, &net, &faults, Some(Arc::new(move |node, _| {
